@@ -2,6 +2,7 @@ package rules
 
 import (
 	"go/constant"
+	"go/token"
 	"go/types"
 	"sort"
 	"strings"
@@ -224,6 +225,89 @@ func checkOperandsFresh(c *core.Ctx) {
 			st.Ob(r.ok)
 			if !r.ok {
 				c.ReportAt("R04.27", fn, fn.Pos(), "operand-shared:"+fn.Name(), core.FuncName(fn)+" can return an operand that is not allocated by the call ("+r.why+"): the decoders set RegCount on the operands of 64-bit instructions, so decoding `v_rcp_f64 v[0:1], 1.0` changes the operand of every instruction that uses the same constant, before and after")
+			}
+		}
+	}
+}
+
+// checkWidthColumn (R04.28): where a format decoder widens an operand to a register
+// pair because of the table's width column, it consults the column of that very
+// operand.
+func checkWidthColumn(c *core.Ctx) {
+	st := c.Rule("R04.28", "a store `inst.<Operand>.RegCount = 2` in a format decoder that is taken under a test of a width column of the decode table (SRC0Width / SRC1Width / SRC2Width / DSTWidth / SDSTWidth == 64) is taken under the column of that operand: Src0 under SRC0Width, Src1 under SRC1Width, Src2 under SRC2Width, Dst under DSTWidth, SDst under SDSTWidth. v_cmp_class_f64 has a 64-bit SRC0 and a 32-bit SRC1; widening both under the SRC0 column decodes the class mask as a register pair", 12)
+	pi := NewPkgInfo(c, instsPkg)
+	if pi.Pkg == nil {
+		return
+	}
+	col := map[string]string{"Src0": "SRC0Width", "Src1": "SRC1Width", "Src2": "SRC2Width", "Dst": "DSTWidth", "SDst": "SDSTWidth"}
+	widthCut := func(accept func(field string) bool) EdgeCut {
+		return CmpCut(func(_ *core.Node, op token.Token, x, y ssa.Value) int {
+			k, isC := core.ConstInt(y)
+			if !isC || k != 64 {
+				return 0
+			}
+			f := core.LoadedField(core.StripConv(x))
+			if f == nil || !accept(f.Name()) {
+				return 0
+			}
+			switch op {
+			case token.EQL:
+				return 1
+			case token.NEQ:
+				return -1
+			}
+			return 0
+		})
+	}
+	for _, fn := range pi.Funcs {
+		var g *core.Graph
+		for _, b := range fn.Blocks {
+			for _, in := range b.Instrs {
+				s, ok := in.(*ssa.Store)
+				if !ok {
+					continue
+				}
+				fa, ok := s.Addr.(*ssa.FieldAddr)
+				if !ok || fieldNameOf(fa) != "RegCount" {
+					continue
+				}
+				if k, isC := core.ConstInt(s.Val); !isC || k != 2 {
+					continue
+				}
+				opLoad, ok := fa.X.(*ssa.UnOp)
+				if !ok {
+					continue
+				}
+				of := core.LoadedField(opLoad)
+				if of == nil || col[of.Name()] == "" || core.ShortFieldID(of) != "Inst."+of.Name() {
+					continue
+				}
+				if g == nil {
+					g = core.BuildGraph(fn, 0, nil)
+				}
+				n := g.NodeOf(in)
+				if n == nil {
+					continue
+				}
+				own := col[of.Name()]
+				underOwn := g.Guarded(n, widthCut(func(f string) bool { return f == own }))
+				underAny := g.Guarded(n, widthCut(func(f string) bool {
+					for _, w := range col {
+						if f == w {
+							return true
+						}
+					}
+					return false
+				}))
+				if !underAny {
+					continue // widened for another reason (opcode, mnemonic): not this rule
+				}
+				st.Instances++
+				c.MarkAnalysed(fn)
+				st.Ob(underOwn)
+				if !underOwn {
+					c.ReportAt("R04.28", fn, in.Pos(), "width-column:"+of.Name(), core.FuncName(fn)+" widens "+of.Name()+" to a register pair under the width column of another operand, not under "+own+": an instruction whose operands have different widths (v_cmp_class_f64: 64-bit SRC0, 32-bit SRC1) decodes this operand with the wrong register count")
+				}
 			}
 		}
 	}
